@@ -78,3 +78,62 @@ func c17ResultTyping(c *core.Ctx, force bool) {
 		c.NonTrivial("typing|" + parts[0])
 	}
 }
+
+// c17Override: an AWK function may have the name of a Go function in Funcs (the AWK definition
+// wins); every OTHER Go function must still be the one its name says - before, at and after
+// the overridden name in sorted order, with one and with several overrides.
+func c17Override(c *core.Ctx, force bool) {
+	if !force && !c.Mine(7701) {
+		return
+	}
+	names := []string{"aa", "bb", "cc", "dd", "ee", "ff"}
+	funcs := map[string]any{}
+	for _, n := range names {
+		n := n
+		funcs[n] = func(x int, s string) string { return fmt.Sprintf("go-%s(%d,%s)", n, x, s) }
+	}
+	funcs["gg"] = func(x int) int { return x * 2 }
+	for mask := 0; mask < 1<<len(names); mask++ {
+		var sb strings.Builder
+		want := ""
+		for i, n := range names {
+			if mask&(1<<i) != 0 {
+				fmt.Fprintf(&sb, "function %s(x, s) { return \"awk-%s(\" x \",\" s \")\" }\n", n, n)
+				want += fmt.Sprintf("awk-%s(%d,v) ", n, i)
+			} else {
+				want += fmt.Sprintf("go-%s(%d,v) ", n, i)
+			}
+		}
+		sb.WriteString("BEGIN { print ")
+		for i, n := range names {
+			fmt.Fprintf(&sb, "%s(%d, \"v\"), ", n, i)
+		}
+		sb.WriteString("gg(21) }\n")
+		want += "42\n"
+		src := sb.String()
+		cs := map[string]any{"family": "override", "src": src}
+		c.Begin(cs)
+		c.Eval(1)
+		c.Count("override_programs", 1)
+		prog, err, pm := run.Parse(src, funcs)
+		if pm != "" {
+			c.Violation("parse-panic", "override", "ParseProgram panicked on a program that redefines Go function names: "+run.PanicSite(pm), "parses", pm, cs)
+			return
+		}
+		if err != nil {
+			// redefinition refused altogether: the property does not speak about it; nothing to compare
+			c.Count("override_refused_at_parse", 1)
+			continue
+		}
+		o := run.Exec(prog, &interp.Config{Funcs: funcs, Stdin: strings.NewReader("")}, run.Opts{})
+		if o.Panic != "" {
+			c.Violation("call-panic", "override", "a program that redefines some Go function names panicked at call time: "+run.PanicSite(o.Panic), want, o.Panic, cs)
+			return
+		}
+		if o.Err != "" || o.Stdout != want {
+			c.Violation("arg-conversion", "override", fmt.Sprintf("with AWK functions named like some of the Go functions, the calls reach other functions than their names say: got %q %s", o.Stdout, o.Err), want, o.Stdout+o.Err, cs)
+			return
+		}
+		c.NonTrivial(fmt.Sprintf("override|%d", mask))
+	}
+}
